@@ -75,18 +75,18 @@ let cap = nat_of_int 256
 let pinned = (try Sys.getenv "VERIF_C20_PINNED" = "1" with Not_found -> false)
 let model line =
   let (chunks, tok, _, _) = parse_case line in
+  (* one push per chunk, the time-out state printed after each (as the harness does) *)
   let res =
-    if pinned then
-      List.fold_left (fun acc c -> match acc with
-          | None -> None
-          | Some (evs, s) -> (match push_bytes_pinned tok cap s c with Some (e, s') -> Some (evs @ e, s') | None -> None))
-        (Some ([], ist0)) chunks
-    else push_chunks tok cap ist0 chunks in
+    List.fold_left (fun acc c -> match acc with
+        | None -> None
+        | Some (out, s) ->
+          (match (if pinned then push_bytes_pinned tok cap s c else push_bytes tok cap s c) with
+           | Some (e, s') -> Some (out @ List.map pr_event e @ [Printf.sprintf "a%d" (if s'.i_armed then 50 else -1)], s')
+           | None -> None))
+      (Some ([], ist0)) chunks in
   match res with
   | None -> "NONE fuel exhausted"
-  | Some (evs, s) ->
-    String.concat " " (List.map pr_event evs @ [Printf.sprintf "a%d" (if s.i_armed then 50 else -1);
-                                                 Printf.sprintf "h%d" (int_of_z s.i_held)])
+  | Some (out, s) -> String.concat " " (out @ [Printf.sprintf "h%d" (int_of_z s.i_held)])
 let parse_obs o =
   let evs = ref [] and held = ref 0 and armed = ref false in
   List.iter (fun t ->
